@@ -322,7 +322,9 @@ def damage_cases(draw):
     objs = {}
     for n in nums:
         if draw(st.integers(0, 3)) == 0:
-            lines = draw(st.lists(st.sampled_from([b"abc", b"", b"12 0 R", b"x endobj y", b"<< /A 1 >>", b"\x00\xff", b"stream"]),
+            lines = draw(st.lists(st.sampled_from([b"abc", b"", b"12 0 R", b"x endobj y", b"<< /A 1 >>", b"\x00\xff", b"stream",
+                                                   # /Length delimits the data, whatever the data spells
+                                                   b"endstream", b"(before endstream after) Tj", b"endstream endobj"]),
                                   max_size=4))
             payload = b"\n".join(lines)
             objs[n] = W.Stream({b"Length": len(payload)}, payload)
@@ -331,6 +333,14 @@ def damage_cases(draw):
     text = draw(st.text("ABCDEFGHabcdefgh ", min_size=1, max_size=12)).strip().encode() or b"A"
     kind = draw(st.sampled_from(["startxref", "startxref", "xref-keyword", "subsection-header", "entry", "truncate-table",
                                  "wrong-offsets"]))
+    if kind != "wrong-offsets":
+        # without any usable cross-reference the body scan deliberately distrusts /Length and ends stream data at the
+        # first `endstream` (documented fallback behaviour): data spelling that keyword is only used where the table is
+        # readable and single entries are wrong
+        for n, v in list(objs.items()):
+            if W.is_stream(v) and b"endstream" in v[2]:
+                payload = v[2].replace(b"endstream", b"endstreax")
+                objs[n] = W.Stream({b"Length": len(payload)}, payload)
     dmg = {"kind": kind, "index": draw(st.integers(0, 50)), "seed": draw(st.integers(0, 2 ** 16))}
     if kind == "startxref":
         dmg["value"] = draw(st.one_of(st.integers(0, 6000).map(lambda v: b"%d" % v), st.sampled_from(
